@@ -92,3 +92,15 @@ claim(
     "|z| <= 1e6; stencil cases whose round-off floor exceeds 1e-3 of the gradient are inconclusive; histories use a fixed smooth objective.",
     "Hypothesis PBT: high-precision reference, numerical differentiation, model-based histories",
 )
+claim(
+    "C12",
+    "Generated-input search: five sample families (incl. heavy tails, bimodal, ties), sizes 3..3000, locations to 1e6 scale units, "
+    "scales 1e-6..1e6, rule-of-thumb / user (0.02-20x rule and wider than the data range) / cross-validated bandwidths; evaluation at "
+    "dyadic region boundaries +-1 ulp, sample values, inside and up to 1e4 h outside. Oracle: exact KDE and exact CDF by direct summation "
+    "with the estimator's own h, explicit truncation bounds (2.5e-3/(sqrt(2pi)h) and 3e-4) derived from the 4h cut-off, CDF monotone and "
+    "0/1 limits, bit-exact invariance to sample order, evaluation order and scalar/array form, exact covariance under power-of-two "
+    "scaling and tolerance-bounded covariance (bandwidth, pdf, cdf) under generic positive affine maps for every bandwidth mode.",
+    "Samples are produced by a numpy generator seeded from the case; cross-validated cases limited to n <= 400 (no random sub-sampling); "
+    "a cross-validation grid flip to the neighbouring refinement point (<2% in h) is counted inconclusive.",
+    "Hypothesis PBT with direct-summation reference and metamorphic relations",
+)
